@@ -269,6 +269,9 @@ func (b *CredentialBuilder) Commit(randomizers map[string]*big.Int) ([]*big.Int,
 	r0s := new(big.Int).Exp(b.pk.R[0], b.skRandomizer, b.pk.N)
 	uCommit := big.NewInt(1)
 	if b.proofPcomm != nil {
+		if b.proofPcomm.Pcommit == nil {
+			return nil, errors.New("incomplete keyshare commitment")
+		}
 		uCommit.Set(b.proofPcomm.Pcommit)
 	}
 	uCommit.Mul(uCommit, sv).Mul(uCommit, r0s)
